@@ -307,6 +307,12 @@ def c01(rep, tier, seed, wd, replay):
         return len(ks) != len(set(ks)) or any("D" in hist.states_of(l) for l in h["impl"] if l)
     run_hist_property(rep, tier, seed, wd, "C01", ("att", "atts", "atts0", "export", "restart"), opts, sizes,
                       judges=[judge_slash("C01")], nontrivial=nontriv)
+    if REPLAY is None or "scenario" in REPLAY:
+        # histories with concurrently issued requests: keys with high watermarks are re-asked for signed targets while
+        # other keys advance (judged order-free: no two released attestations of one key are slashable)
+        dh = build_harness(wd)
+        run_conc(rep, dh, wd, hist.interop_keys(dh), Rng(seed * 77 + 1), 0, 0, 250 if tier != "thorough" else 600, [None, 2],
+                 want_lin=False, n_cross=2 if tier != "thorough" else 12, cross_kind="att")
 
 
 def c02(rep, tier, seed, wd, replay):
@@ -324,6 +330,12 @@ def c02(rep, tier, seed, wd, replay):
                                               for op, l in zip(h["ops"], h["impl"]))
     run_hist_property(rep, tier, seed, wd, "C02", ("prop", "export", "restart"), opts, sizes,
                       judges=[judge_slash("C02")], nontrivial=nontriv)
+    if REPLAY is None or "scenario" in REPLAY:
+        # histories with concurrently issued requests: keys with high watermarks are re-asked for signed slots while
+        # other keys advance (judged order-free: no two released proposals of one key share a slot)
+        dh = build_harness(wd)
+        run_conc(rep, dh, wd, hist.interop_keys(dh), Rng(seed * 77 + 2), 0, 0, 250 if tier != "thorough" else 600, [None, 2],
+                 want_lin=False, n_cross=2 if tier != "thorough" else 12, cross_kind="prop")
 
 
 def c05(rep, tier, seed, wd, replay):
@@ -808,6 +820,15 @@ def c10(rep, tier, seed, wd, replay):
     scen.append((cfg, ["export", imp.import_line(G, ("5", G), [("0x" + k0.hex(), ["3"], [("7", "9")])]), "export"]))
     scen.append((cfg, ["export", imp.import_line(G, ("5", G), [("0x" + k0.hex(), ["30"], []), ("0x" + k0.hex(), ["12"], [("8", "9")])]), "export"]))
     scen.append((["begin"], ["export", imp.import_line(G, ("5", G), [("0x" + k0.hex(), ["30"], [("1", "2")]), ("0x" + k0.hex(), ["12"], [])]), "export"]))
+    # large stores (more records than one iterator prefetch of the storage engine): an import of old history for a
+    # few keys must leave every key's protection where it was
+    for nk in ([60, 130] if tier != "thorough" else [51, 60, 101, 130, 257]):
+        r = rng.fork()
+        raws, ks = imp.big_store_raws(nk)
+        picks = [ks[0], ks[1], ks[r.below(nk)], ks[nk // 2], ks[nk - 1]]
+        ents = [("0x" + k.hex(), [str(3 + r.below(5))], [(str(1 + r.below(3)), str(5 + r.below(3)))]) for k in picks]
+        scen.append((raws + ["begin"], ["export", imp.import_line(G, ("5", G), ents), "export",
+                                        imp.import_line(G, ("5", G), [("0x" + ks[2].hex(), ["200000"], [("150000", "150001")])]), "export"]))
     for _ in range(n):
         r = rng.fork()
         scen.append(imp.gen_scenario(r, good_only=r.chance(0.4)))
@@ -1160,6 +1181,15 @@ def c11(rep, tier, seed, wd, replay):
             else:
                 w[0] = f[1]
         hs.append({"cfg": cfg, "ops": ops, "accts": accts, "opts": {}, "want": want})
+    # large stores: every record must come out with its own values (not those of a record further along)
+    for nk in ([130] if tier != "thorough" else [51, 101, 130, 300]):
+        raws_l, ks = imp.big_store_raws(nk, step=7)
+        cfg = hist.config_lines(accts, perms, admins) [:-1] + raws_l + ["begin"]
+        want = {}
+        for i, k in enumerate(ks):
+            s_ = 100000 - 7 * i
+            want[k.hex()] = [str(s_ + 7), str(s_), str(s_ + 1)]
+        hs.append({"cfg": cfg, "ops": ["export", "restart", "export"], "accts": accts, "opts": {}, "want": want, "large": True})
     engines.exec_histories(dh, wd, hs)
     rep.cov["legacy_record_histories"] = len(hs)
     from common import run_model as _rm
@@ -1179,8 +1209,12 @@ def c11(rep, tier, seed, wd, replay):
         for (hi_, k), o in zip(jm, _rm(jl)):
             if o.strip() != "ok":
                 found_legacy = True
-                rep.violation("legacy-record-not-honoured", "the export of a key whose records are in the old (gob) format does not state the values those records hold",
-                              {"config": hs[hi_]["cfg"], "ops": ["export"], "key": k, "export": hs[hi_]["impl"][0][:600], "expected": hs[hi_]["want"][k]})
+                if hs[hi_].get("large"):
+                    rep.violation("export-not-exact-large-store", "in a store of several hundred records the export of a key does not state the values its own records hold",
+                                  {"config": hs[hi_]["cfg"], "ops": ["export"], "key": k, "exported": list(ex.get(k, ())), "expected": hs[hi_]["want"][k]})
+                else:
+                    rep.violation("legacy-record-not-honoured", "the export of a key whose records are in the old (gob) format does not state the values those records hold",
+                                  {"config": hs[hi_]["cfg"], "ops": ["export"], "key": k, "export": hs[hi_]["impl"][0][:600], "expected": hs[hi_]["want"][k]})
                 break
     for h in hs:
         rep.count("gob" + json.dumps(h["cfg"][-6:]), True)
@@ -1226,7 +1260,7 @@ def c11(rep, tier, seed, wd, replay):
     rep.cov["roundtrip_scenarios"] = len(scen)
 
 
-def run_conc(rep, dh, wd, keys, rng, n_steered, n_soak, soak_size, gomaxprocs, want_lin=True, want_slash=True):
+def run_conc(rep, dh, wd, keys, rng, n_steered, n_soak, soak_size, gomaxprocs, want_lin=True, want_slash=True, n_cross=0, cross_kind=None):
     """steered schedules + soak; returns (found_violation, stats)"""
     import conc
     from common import run_impl, run_model
@@ -1241,6 +1275,9 @@ def run_conc(rep, dh, wd, keys, rng, n_steered, n_soak, soak_size, gomaxprocs, w
             scen.append((kind, prefix, parks, cops, workers))
         for _ in range(n_soak):
             scen.append(("soak", [], "-", conc.soak(rng.fork(), accts, soak_size), 32))
+        for _ in range(n_cross):
+            pre, cops = conc.cross_soak(rng.fork(), accts, soak_size, cross_kind)
+            scen.append(("cross-soak", pre, "-", cops, 32))
         lines = []
         for kind, prefix, parks, cops, workers in scen:
             lines += ["reset"] + cfg + conc.scenario_lines(prefix, parks, cops, workers)
@@ -1271,7 +1308,7 @@ def run_conc(rep, dh, wd, keys, rng, n_steered, n_soak, soak_size, gomaxprocs, w
             ops_seq = prefix + [op for _, op in cops]
             impl_seq = out[1:1 + len(prefix)] + [r_[2] for r_ in res]
             slash_h.append({"cfg": cfg, "ops": ops_seq, "impl": impl_seq, "accts": accts, "scen": (kind, prefix, parks, cops, workers)})
-            if want_lin and kind != "soak":
+            if want_lin and kind not in ("soak", "cross-soak"):
                 jl += ["reset"] + cfg + prefix + ["lin-begin"]
                 for (d, op), (ti, tr, rs) in zip(cops, res):
                     jl.append("lin-op %d %d %s %s" % (ti, tr, rs.replace(" ", "+"), op))
@@ -1353,7 +1390,7 @@ def c04(rep, tier, seed, wd, replay):
     prove(rep, "C04")
     first_bad, dh, keys, rng = lock_trace_histories(rep, tier, seed, wd, "C04")
     ns, nsoak, ssize = tier_sizes(tier, (60, 2, 150), (1200, 10, 400))
-    found = run_conc(rep, dh, wd, keys, rng, ns, nsoak, ssize, [None] if tier != "thorough" else [2, 16, 128])
+    found = run_conc(rep, dh, wd, keys, rng, ns, nsoak, ssize, [None] if tier != "thorough" else [2, 16, 128], n_cross=2 if tier != "thorough" else 10)
     if first_bad is not None:
         h, (i, op, il, ml) = first_bad
         rep.broken.append(("correspondence:lock-trace(model lock protocol vs ruler+locker calls)",
